@@ -259,7 +259,7 @@ inline int engineMain(int argc, char** argv, Engine& eng) {
             ctx().plan = nullptr;
             for (auto& kv : r.counters) tot[kv.first] += kv.second;
             simtime += r.simtime;
-            if (r.inconclusive) nincon++;
+            if (r.inconclusive) { nincon++; std::printf("I idx=%ld seed=%llu | %s\n", i, (unsigned long long)seed, sanitize(r.detail).c_str()); }
             if (r.violation) { nviol++; printViolation(i, seed, r, savePlan(plan, r.vclass, ctx().replayDir)); }
             if (perrun) std::printf("r %ld %016llx %d %016llx\n", i, (unsigned long long)r.hash, r.nontrivial ? 1 : 0, (unsigned long long)r.key);
             if ((done & 63) == 63) {
